@@ -29,6 +29,8 @@ static void viol (const char *prop, const char *sig) { vf_viol (prop, sig, "%s",
 
 int rand (void) { static int c; return c++; }
 
+static const int LONGLENS[] = {100, 127, 128, 129, 255, 256, 257, 300, 511, 512, 513, 600, 1000, 1023, 1025, 1500, 2047, 2048, 2049, 3000, 4095, 4096, 4097, 8191, 8192, 8193, 10000, 12288, 16384, 32768, 65535, 65536, 65537, 70000};
+#define NLONGLENS ((int) (sizeof LONGLENS / sizeof LONGLENS[0]))
 typedef struct { int codec, m, k, r, n, N1, seed, len, prefix, slotmode; } pt_t;
 static pt_t *PT; static long NPT, CAPPT;
 static void add_pt (int codec, int m, int k, int r, int N1, int seed, int len, int prefix)
@@ -355,11 +357,11 @@ static void p2d_probe (long it, void *arg)
 }
 static void p2d_point (const pt_t *p)
 {
-	int k = p->k, r = p->r, n = k + r, len = k + 2, i, j, a, b, rc, mode;
+	int k = p->k, r = p->r, n = k + r, len = p->len > 0 ? p->len : k + 2, i, j, a, b, rc, mode;
 	of_session_t *s = NULL;
 	of_2d_parity_parameters_t prm;
 	char sig[200], ak[32], af[32];
-	snprintf (g_case, sizeof g_case, "2d k=%d r=%d", k, r);
+	snprintf (g_case, sizeof g_case, "2d k=%d r=%d len=%d", k, r, len);
 	memcpy (vf_slot (), g_case, sizeof g_case);
 	rc = vf_run_isolated (p2d_probe, (long) k * 64 + r, NULL, 20, ak, af, sizeof ak);
 	if (rc > 0 || rc == -1) { snprintf (sig, sizeof sig, "call=set_fec_parameters|kind=%s", rc == -1 ? "hang" : "crash"); viol ("C16", sig); return; }
@@ -425,9 +427,10 @@ static void p2d_point (const pt_t *p)
 				for (i = 0; i < k; i++) if (memcmp (src[i], pri[i], (size_t) len)) { viol ("C16", "call=build|kind=source-buffer-modified"); memcpy (src[i], pri[i], (size_t) len); }
 				if (!failed)
 					for (i = 0; i < r; i++) {
-						unsigned char acc[64]; memset (acc, 0, sizeof acc);
-						for (j = 0; j < n; j++) if (bm_get (H, i, j)) for (bb = 0; bb < len && bb < 64; bb++) acc[bb] ^= ((unsigned char *) tab[j])[bb];
-						for (bb = 0; bb < len && bb < 64; bb++) if (acc[bb]) { viol ("C16", "kind=encoder-output-violates-a-check"); i = r; break; }
+						unsigned char *acc = calloc (1, (size_t) len + 1);
+						for (j = 0; j < n; j++) if (bm_get (H, i, j)) for (bb = 0; bb < len; bb++) acc[bb] ^= ((unsigned char *) tab[j])[bb];
+						for (bb = 0; bb < len; bb++) if (acc[bb]) { viol ("C16", "kind=encoder-output-violates-a-check"); i = r; break; }
+						free (acc);
 					}
 				for (j = k; j < n; j++) { if (mode == 1 && tab[j]) free (tab[j]); free (mine[j]); }
 				free (tab); free (mine);
@@ -524,6 +527,62 @@ static void refmds_point (const pt_t *p)
 	vf_stat_add (st_points, 1);
 }
 
+
+/* ------------------------------------------------------------------ hist mode (C05: "in any process and after any history of other sessions")
+ * Every sequence of LDPC sessions of a given length over a small alphabet of codes - two small ones, one just above
+ * 4096 symbols, a large low-rate one (thorough: a medium one too) - each sequence in a process of its own; position parity
+ * selects encoder / decoder, sequence parity whether the previous session is still open when the next is created.
+ * Every session's matrix is compared entry by entry with the RFC 5170 reference of ITS parameters. */
+typedef struct { int k, r, N1, seed; } hc_t;
+static const hc_t HC[5] = {{5, 4, 3, 1}, {7, 5, 4, 2}, {4090, 7, 3, 1}, {3000, 1500, 5, 9}, {300, 100, 6, 4}};
+static bitmat *HREF[5];
+static int g_halpha = 4, g_hlen = 6;
+static void hist_desc (long seq, char *out, size_t sz)
+{
+	size_t l = (size_t) snprintf (out, sz, "hist alpha=%d len=%d seq=%ld codes=", g_halpha, g_hlen, seq);
+	int i; long x = seq;
+	for (i = 0; i < g_hlen && l + 4 < sz; i++) { l += (size_t) snprintf (out + l, sz - l, "%d", (int) (x % g_halpha)); x /= g_halpha; }
+}
+static void hist_body (long seq, void *arg)
+{
+	of_session_t *prev = NULL;
+	int i; long x = seq;
+	int overlap = (int) (seq & 1);
+	char sig[160];
+	(void) arg;
+	for (i = 0; i < g_hlen; i++) {
+		int c = (int) (x % g_halpha), rej = 0, type = (i & 1) ? OF_DECODER : OF_ENCODER;
+		const hc_t *h = &HC[c];
+		of_session_t *s;
+		bool isnull = false;
+		x /= g_halpha;
+		s = open_ses (3, 0, h->k, h->r, h->N1, h->seed, 8, type, &rej);
+		vf_stat_add (st_trans, 1);
+		if (!s) { snprintf (sig, sizeof sig, "hist|kind=valid-configuration-rejected|position=%d|code=%d", i, c); viol ("C05", sig); break; }
+		if (type == OF_DECODER) of_get_control_parameter (s, OF_CRTL_LDPC_STAIRCASE_IS_LAST_SYMBOL_NULL, &isnull, sizeof isnull);
+		if (!sparse_equals_ref (((of_ldpc_staircase_cb_t *) s)->pchk_matrix, HREF[c], h->k, h->r, isnull ? 1 : 0)) {
+			snprintf (sig, sizeof sig, "hist|kind=pchk-differs-from-rfc5170|session=%s|position=%d|code=%d", type == OF_DECODER ? "decoder" : "encoder", i, c);
+			viol ("C05", sig);
+		}
+		if (prev) { of_release_codec_instance (prev); prev = NULL; }
+		if (overlap) prev = s; else of_release_codec_instance (s);
+	}
+	if (prev) of_release_codec_instance (prev);
+}
+static void hist_item (long it, void *arg)
+{
+	char ak[64], af[128];
+	int rc;
+	(void) arg;
+	vf_slot_set_prop ("C05");
+	hist_desc (it, g_case, sizeof g_case);
+	memcpy (vf_slot (), g_case, sizeof g_case);
+	rc = vf_run_isolated (hist_body, it, NULL, 120, ak, af, sizeof ak);
+	if (rc != 0) { char sig[200]; snprintf (sig, sizeof sig, "hist|kind=%s%s|func=%s", rc == -1 ? "hang" : "crash", ak[0] ? ":" : "", ak[0] ? af : "?"); viol ("C05", sig); }
+	vf_stat_add (st_points, 1);
+	vf_stat_add (st_states, 1);
+}
+
 static void item (long it, void *arg)
 {
 	(void) arg;
@@ -543,7 +602,11 @@ static void item_replay (long it, void *arg)
 	if (sscanf (cs, "rs codec=%d m=%d k=%d n=%d len=%d align=%d", &p.codec, &p.m, &p.k, &p.n, &p.len, &p.prefix) >= 5) { p.r = p.n - p.k; rs_point (&p); }
 	else if (sscanf (cs, "ldpc k=%d r=%d N1=%d seed=%d len=%d prefix=%d align=%d", &p.k, &p.r, &p.N1, &p.seed, &p.len, &p.prefix, &p.slotmode) >= 6) { p.codec = 3; p.n = p.k + p.r; ldpc_point (&p); }
 	else if (sscanf (cs, "both codec=%d m=%d k=%d r=%d N1=%d seed=%d len=%d lost=%d", &p.codec, &p.m, &p.k, &p.r, &p.N1, &p.seed, &p.len, &p.prefix) == 8) { p.n = p.k + p.r; p.slotmode = 9; both_point (&p); }
-	else if (sscanf (cs, "2d k=%d r=%d", &p.k, &p.r) == 2) { p.codec = 5; p.n = p.k + p.r; p2d_point (&p); }
+	else if (!strncmp (cs, "hist ", 5)) {
+		long seq; int c;
+		if (sscanf (cs, "hist alpha=%d len=%d seq=%ld", &g_halpha, &g_hlen, &seq) == 3) { for (c = 0; c < g_halpha; c++) HREF[c] = rfc5170_H (HC[c].k, HC[c].k + HC[c].r, HC[c].N1, (uint64_t) HC[c].seed, NULL); hist_item (seq, NULL); }
+	}
+	else if (sscanf (cs, "2d k=%d r=%d len=%d", &p.k, &p.r, &p.len) >= 2) { p.codec = 5; p.n = p.k + p.r; p2d_point (&p); }
 	else vf_viol ("MACHINERY", "kind=bad-replay-case", "%s", cs);
 }
 
@@ -573,6 +636,14 @@ int main (int argc, char **argv)
 			int L, al;
 			for (L = 1; L <= 24; L++) for (al = 1; al < 8; al++) { add_pt (1, 8, 3, 2, 0, 0, L, al); add_pt (2, 8, 3, 2, 0, 0, L, al); add_pt (2, 4, 3, 2, 0, 0, L, al); add_pt (2, 4, 7, 8, 0, 0, L, al); }
 		}
+		{	/* long symbols (cache-blocked / sliced encoders, 16-bit length fields): powers of two and neighbours up to 64 KiB */
+			int li, al;
+			for (li = 0; li < NLONGLENS; li++) for (al = 0; al <= 3; al += 3) {
+				if (LONGLENS[li] > 20000 && al) continue;
+				add_pt (1, 8, 5, 4, 0, 0, LONGLENS[li], al); add_pt (2, 8, 5, 4, 0, 0, LONGLENS[li], al); add_pt (2, 4, 5, 4, 0, 0, LONGLENS[li], al);
+				if (thorough) { add_pt (1, 8, 200, 55, 0, 0, LONGLENS[li] < 4000 ? LONGLENS[li] : 700, al); add_pt (2, 8, 40, 3, 0, 0, LONGLENS[li], al); }
+			}
+		}
 		for (i = 0; i < (int) (sizeof lens / sizeof lens[0]); i++) { add_pt (1, 8, 5, 4, 0, 0, lens[i], 0); add_pt (2, 8, 5, 4, 0, 0, lens[i], 0); add_pt (2, 4, 5, 4, 0, 0, lens[i], 0); add_pt (2, 4, 14, 1, 0, 0, lens[i], 0); add_pt (1, 8, 17, 3, 0, 0, lens[i], 0); }
 	} else if (!strcmp (mode, "both")) {
 		int lost, codec;
@@ -580,6 +651,11 @@ int main (int argc, char **argv)
 		for (k = 2; k <= 8; k++) for (r = 3; r <= 6; r++) for (N1 = 3; N1 <= r && N1 <= 5; N1++) for (lost = 0; lost <= 2; lost++) { add_pt (3, 0, k, r, N1, 1 + (k + r) % 3, k + 3, lost); PT[NPT - 1].slotmode = 9; }
 	} else if (!strcmp (mode, "2d")) {
 		for (k = 0; k <= 17; k++) for (r = 0; r <= 26; r++) add_pt (5, 0, k, r, 0, 0, k + 2, 0);
+		{	/* every accepted pair again with long symbols */
+			static const int L2[] = {100, 127, 128, 129, 255, 256, 257, 1000, 4096, 65536};
+			int li;
+			for (k = 1; k <= 16; k++) for (r = 1; r <= 12; r++) for (li = 0; li < 10; li++) if (thorough || li % 3 == (k + r) % 3 || L2[li] == 128 || L2[li] == 256) add_pt (5, 0, k, r, 0, 0, L2[li], 0);
+		}
 	} else {
 		static const int kt[] = {1, 2, 3, 4, 5, 6, 7, 8, 9, 10, 11, 12, 16, 20, 32, 50, 100, 255, 1000}, rt[] = {3, 4, 5, 6, 7, 8, 9, 10, 11, 12, 16, 32, 100, 500};
 		static const int seeds_t[] = {1, 2, 3, 1000, 16807, 2147483645, 2147483646}, seeds_q[] = {1, 2, 2147483646};
@@ -617,6 +693,13 @@ int main (int argc, char **argv)
 				int L, al2;
 				for (L = 1; L <= 40; L++) for (al2 = 1; al2 < 8; al2++) { add_pt (3, 0, 4, 4, 3, 1, L, 0); PT[NPT - 1].slotmode = al2; add_pt (3, 0, 9, 5, 4, 2, L, 0); PT[NPT - 1].slotmode = al2; }
 			}
+			{	/* long symbols on two codes, aligned and misaligned application buffers */
+				int li;
+				for (li = 0; li < NLONGLENS; li++) {
+					add_pt (3, 0, 9, 5, 4, 2, LONGLENS[li], 0);
+					if (LONGLENS[li] <= 20000) { add_pt (3, 0, 9, 5, 4, 2, LONGLENS[li], 0); PT[NPT - 1].slotmode = 5; add_pt (3, 0, 40, 20, 5, 123, LONGLENS[li], 0); }
+				}
+			}
 			/* very large blocks draw with large maxv (up to N1*k = 140000): many seeds, structural comparison only.
 			 * Reached by no test; a PRNG scaling that differs from the RFC expression in the last unit shows here. */
 			for (s = 1; s <= (thorough ? 40 : 6); s++) {
@@ -625,6 +708,20 @@ int main (int argc, char **argv)
 				if (thorough || s <= 3) add_pt (3, 0, 1000, 500, 5 + s % 3, s * 31 + 100, 1002, 0);
 			}
 		}
+	}
+	if (!strcmp (mode, "hist")) {
+		long nseq = 1; int c, i;
+		g_halpha = thorough ? 5 : 4; g_hlen = thorough ? 7 : 6;
+		for (c = 0; c < g_halpha; c++) HREF[c] = rfc5170_H (HC[c].k, HC[c].k + HC[c].r, HC[c].N1, (uint64_t) HC[c].seed, NULL);
+		for (i = 0; i < g_hlen; i++) nseq *= g_halpha;
+		vf_note ("mode hist: every sequence of %d sessions over %d codes (n = 9, 12, 4097, 4500%s): %ld processes", g_hlen, g_halpha, thorough ? ", 400" : "", nseq);
+		vf_pool_run (nseq, hist_item, NULL, 0);
+		vf_outcome ("hist:sequences", nseq);
+		vf_stat_add (st_exec, vf_stat_get (st_trans));
+		vf_stat_add (st_dn, vf_stat_get (st_points));
+		vf_sample ("hist alpha=4 len=6 seq=2730 codes=222222: six sessions of the n=4097 code in one process, alternately encoder and decoder: each matrix equals the RFC 5170 reference");
+		vf_finish ();
+		return 0;
 	}
 	vf_note ("mode %s: %ld points", mode, NPT);
 	vf_pool_run (NPT, item, NULL, 0);
